@@ -25,51 +25,67 @@ LEVEL = "other"
 BUDGET = {"quick": 150, "thorough": 1500}
 EXPLANATION = (
     "Bounded symbolic execution of dask.rewrite's discrimination-net matcher on the real RuleSet / RewriteRule classes. Rule sets (<= 2 rules) and "
-    "subject terms come from a choice grammar over the function symbols f/2, g/1 (h/0 in the edge family), depth <= 2, variables x, y (possibly "
-    "repeated, possibly nested under g), string constants, and SYMBOLIC integer constants in both patterns and terms. For every path: (1) the multiset "
-    "of (rule, bindings) yielded by RuleSet.iter_matches equals what an independent recursive matcher computes -- rule i is yielded exactly once iff "
-    "the reference's match condition (a z3 formula over the constants: constant-in-pattern == constant-in-term, repeated variable bound to equal "
-    "subterms) holds, never twice; (2) the yielded bindings bind exactly the variables occurring in the lhs, equal the reference bindings, and the lhs "
-    "with those bindings substituted simultaneously is structurally equal to the term (e.equal, decided by z3); (3) rs.rewrite(term, "
-    "strategy='top_level') equals the right-hand side of SOME matching rule instantiated with its bindings (term rhs: independent simultaneous "
-    "substitution; callable rhs: the callable's value on the bindings) and equals the term itself when no rule matches; (4) the default bottom_up "
-    "strategy returns one of the results of the reference bottom-up rewriting relation (children first, then one top-level step with any matching rule). "
-    "Every path model is replayed natively, and an e2e witness re-decides the property literally on the concrete model: every assignment of the lhs "
-    "variables to subterms of the term is tried, and the assignments that make lhs[assignment] == term must be exactly the yielded bindings.")
+    "subject terms come from a choice grammar over the function symbols f/2, g/1 (h/0 in the edge family, k/3 in the arity3 family), depth <= 2, "
+    "variables x, y (possibly repeated, possibly nested), string constants, and SYMBOLIC integer constants in both patterns and terms. For every "
+    "path: (1) the multiset of (rule, bindings) yielded by RuleSet.iter_matches equals what an independent recursive matcher computes -- rule i is "
+    "yielded exactly once iff the reference's match condition (a z3 formula over the constants: constant-in-pattern == constant-in-term, repeated "
+    "variable bound to equal subterms) holds, never twice; (2) the yielded bindings bind exactly the variables occurring in the lhs, equal the "
+    "reference bindings, and the lhs with those bindings substituted simultaneously is structurally equal to the term (e.equal, decided by z3); "
+    "(3) rs.rewrite(term, strategy='top_level') equals the right-hand side of SOME matching rule instantiated with its bindings (term rhs: "
+    "independent simultaneous substitution; callable rhs: the callable's value on the bindings) and equals the term itself when no rule matches; "
+    "(4) the default strategy is bottom_up and returns one of the results of the reference bottom-up rewriting relation (arguments first, then one "
+    "top-level step with any matching rule). Every path model is replayed natively, and an e2e witness re-decides the property literally on the "
+    "concrete model: every assignment of the lhs variables to subterms of the term is tried, and the assignments that make lhs[assignment] == term "
+    "must be exactly the yielded bindings.")
 ASSUMPTIONS = [
     "ranked alphabet: every function symbol is used with one arity in all rules and terms, and function objects / lists do not occur as arguments "
-    "(the preorder flattening of the discrimination net is injective only then; see OUTSIDE and the variadic obligations)",
+    "(the preorder flattening used by the discrimination net is injective only then; dask does not state this precondition and its RuleSet docstring "
+    "shows a variadic match, see OUTSIDE and the variadic obligation)",
     "variables are strings listed in `vars`; strings not listed are constants; constants are compared with == / hash like dict keys",
-    "for term right-hand sides the independent instantiation is asserted only when the subject term contains no string that is also a variable name "
-    "of the rule (RewriteRule._apply substitutes sequentially; with such strings only equality with rule.subs(bindings) is asserted)",
+    "patterns are taken up to the renaming x <-> y (the first variable of a lhs in preorder is x) except in the strings family",
+    "for term right-hand sides the independent simultaneous instantiation is asserted whenever the subject term contains no string that is also a "
+    "declared variable name of the rule; with such strings (strings family, model variable var_named_leaf = 1) the rewrite is compared with "
+    "rule.subs(bindings) instead, because RewriteRule._apply substitutes sequentially (VERIF_C51_STRICT_SUBST=1 asserts the independent form there too)",
 ]
-STUBS = ["none (dask.rewrite runs unpatched; f, g, h are inert Python functions used as function symbols)"]
+STUBS = ["none (dask.rewrite runs unpatched; f, g, h, k3 are inert Python functions used as function symbols)"]
 ENUM = [
     "shapes of rules and terms (choice grammar, solver-enumerated)",
     "every integer constant of a pattern is hashed into the discrimination net (dict key) by RuleSet.add and every term constant reached by the "
-    "traversal is hashed by _match's dict lookup: these are concretised, i.e. enumerated over their range [0, CMAX]; only the consistency test "
-    "of repeated variables bound to compound subterms (subs[v] != s in _process_match) is a genuine solver fork",
+    "traversal is hashed by _match's dict lookup, so they are concretised, i.e. enumerated over their range (pattern constants [0, pc], term "
+    "constants [0, tc], see BOUNDS); only the consistency test of repeated variables bound to compound subterms (subs[v] != s in _process_match on "
+    "tuples) and the reference's conditions are genuine solver decisions",
 ]
 OUTSIDE = [
     "mixed arities for one function symbol, function objects as arguments, list arguments (head `list`): the net flattens terms to their preorder "
-    "symbol string, which then no longer determines the term -- iter_matches is NOT sound there (see the variadic obligations, enabled with "
-    "VERIF_C51_VARIADIC=1) and can raise IndexError",
+    "symbol string, which then no longer determines the term -- there iter_matches yields rules whose instantiated lhs differs from the term "
+    "((f, (g, 'x'), 'y') matches (f, (g, 1, 2))) and can raise IndexError (rule (f, (g, 0, 'x')) on term (f, (g, 0))); obligation variadic, "
+    "enabled with VERIF_C51_VARIADIC=1, reproduces both (all its violations have model variable mixed_arity = 1)",
+    "capture in RewriteRule._apply when the subject term contains strings equal to variable names (sequential substitution): "
+    "rule (f,'x','y') -> (h,'y','x') rewrites (f,'y','a') to (h,'a','a') instead of (h,'a','y')",
     "constants of mixed numeric types (1 == True == 1.0 are one dict key), unhashable constants",
-    "terms deeper than 2 / arity above 2 / more than 2 rules",
+    "terms deeper than 2 / arity above 3 / more than 2 rules",
     "which of several matching rules a rewrite applies (the property allows any)",
-    "capture in RewriteRule._apply when the subject term contains strings equal to variable names (sequential substitution)",
 ]
 BOUNDS = {
-    "quick": dict(constants="symbolic ints in [0, 2]", one_rule="1 rule, lhs: any term of depth <= 2 over f/2, g/1, leaves {int, x, y}; subject: any term of depth <= 2, int leaves",
-                  two_rules="2 rules (f, s, s'), s in {int, x, y, (g, int), (g, x)}; subject (f, t, t'), t in {int, (g, int), (g, (g, int)), (f, int, int)}",
-                  strings="1 rule over leaves {x, y, 'a', int} with y declared a variable or not, extra unused variable z; subject leaves {'a','x','y',int}",
-                  edge="0-1 rules with h/0, leaf lhs, callable rhs", bottom_up="<= 2 rules, subject depth <= 2"),
-    "thorough": dict(constants="symbolic ints in [0, 3]", one_rule="as quick, subject leaves {int, 'x'}",
-                     two_rules="s in {int, x, y, (g, int), (g, x), (g, y)}, subject t also (g, (f, int, int))", strings="as quick, depth-2 on both sides",
-                     edge="as quick", bottom_up="as quick with 3 subject shapes more"),
+    "quick": dict(constants="symbolic ints, pattern constants in [0, 1] (pc), term constants in [0, 2] (tc) unless stated",
+                  one_rule="1 rule, lhs: any term of depth <= 2 over f/2, g/1, leaves {int, x, y} (a lhs (f, (f,..), (f,..)) carries variables only); "
+                           "subject: any term of depth <= 2 over f/2, g/1 with int leaves",
+                  two_rules="2 rules (f, s, s'), s in {int, x, y, (g, x)}; subject (f, t, t'), t in {int, (g, int), (f, int, int)}; rule 0 term rhs, rule 1 callable rhs",
+                  strings="1 rule (f, a, b), a in {x, y, 'a', (g, x|y|'a')}, b in {x, y, 'a'}, y declared a variable or not, unused declared variable z; "
+                          "subject (f, a, b) over leaves {'a', 'x', 'y', int in [0, 2]}",
+                  edge="0 or 1 rule over f/2, h/0 with leaf lhs (int or bare variable) allowed, term or callable rhs; subject depth <= 2 over f/2, g/1, h/0; constants in [0, 2]",
+                  arity3="1-2 rules over k/3: (k, s, s, s), s in {int, x, y}, optionally a second rule (k, x, (g, y), x) or (k, (g, x), y, int); subject (k, t, t, t), "
+                         "t in {int, (g, int)}; all constants in [0, 1]",
+                  bottom_up="1-2 rules from 5 fixed rules ((g,x)->x, (f,x,x)->(g,x), (g,c)->1, (f,(g,x),y)->(f,x,y), c->(g,0)), 5 subject shapes of depth <= 2"),
+    "thorough": dict(constants="pattern and term constants in [0, 2] unless stated",
+                     one_rule="as quick without the restriction on (f, (f,..), (f,..))",
+                     two_rules="s in {int, x, y, (g, int), (g, x)}, t in {int, (g, int), (g, (g, int)), (f, int, int)}",
+                     strings="as quick plus int constants in the lhs; second family with (g, leaf) allowed in both arguments, constants in [0, 1]",
+                     edge="constants in [0, 3]", arity3="constants in [0, 2]", bottom_up="pattern constants [0, 2], term constants [0, 3], 7 subject shapes"),
 }
 
 VARIADIC = bool(os.environ.get("VERIF_C51_VARIADIC"))
+STRICT_SUBST = bool(os.environ.get("VERIF_C51_STRICT_SUBST"))
 
 
 def functions():
@@ -414,27 +430,44 @@ XY = [S("x"), S("y")]
 RHS = (h, "y", (g, "x"), 7)
 
 
-def ob_one_rule(cmax, term_leaves, tag):
+def x_first(lhs, vs=("x", "y")):
+    """symmetry reduction: the first variable of the lhs in preorder is x (patterns are considered up to renaming x <-> y)"""
+    v = lhs_vars(lhs, vs)
+    return not v or v[0] == "x"
+
+
+def has_int(t):
+    if is_app(t):
+        return any(has_int(a) for a in t[1:])
+    return not isinstance(t, str)
+
+
+def ob_one_rule(pc, tc, term_leaves, tag, light=False):
     def setup(e):
-        lhs = gen(e, "p", 2, [INT] + XY, FG, cmax)
-        term = gen(e, "t", 2, term_leaves, FG, cmax)
+        lhs = gen(e, "p", 2, [INT] + XY, FG, pc)
+        e.assume(x_first(lhs))
+        if light:
+            # quick tier: a lhs (f, (f, ..), (f, ..)) carries variables only
+            e.assume(not (is_app(lhs) and lhs[0] is f and all(is_app(a) and a[0] is f for a in lhs[1:]) and has_int(lhs)))
+        term = gen(e, "t", 2, term_leaves, FG, tc)
         return [Spec(lhs, RHS, ("x", "y"))], term
-    return mk(f"one_rule[{tag},c<={cmax}]", setup)
+    return mk(f"one_rule[{tag},pc<={pc},tc<={tc}]", setup)
 
 
-def ob_two_rules(cmax, s_opts, t_opts, tag):
+def ob_two_rules(pc, tc, s_opts, t_opts, tag):
     def setup(e):
         specs = []
         for r in range(2):
-            lhs = (f,) + tuple(gen(e, f"p{r}_{i}", 0, s_opts, [], cmax) for i in range(2))
+            lhs = (f,) + tuple(gen(e, f"p{r}_{i}", 0, s_opts, [], pc) for i in range(2))
+            e.assume(x_first(lhs))
             specs.append(Spec(lhs, RHS if r == 0 else called, ("x", "y")))
-        term = (f,) + tuple(gen(e, f"t_{i}", 0, t_opts, [], cmax) for i in range(2))
+        term = (f,) + tuple(gen(e, f"t_{i}", 0, t_opts, [], tc) for i in range(2))
         return specs, term
-    return mk(f"two_rules[{tag},c<={cmax}]", setup)
+    return mk(f"two_rules[{tag},pc<={pc},tc<={tc}]", setup)
 
 
-def ob_strings(cmax, deep):
-    pl = [S("x"), S("y"), S("a"), INT]
+def ob_strings(cmax, deep, pat_int):
+    pl = [S("x"), S("y"), S("a")] + ([INT] if pat_int else [])
     tl = [S("a"), S("x"), S("y"), INT]
 
     def shape(e, name, leaves):
@@ -447,8 +480,12 @@ def ob_strings(cmax, deep):
         vs = ("x", "y", "z") if y_var else ("z", "x")
         lhs = shape(e, "p", pl)
         term = shape(e, "t", tl)
+        # derived model variable (lets a known-finding predicate name the capture region of RewriteRule._apply)
+        cap = int(bool(strings_in(term) & set(vs)))
+        v = e.int("var_named_leaf", 0, 1)
+        e.assume(lambda: v == cap)
         return [Spec(lhs, (h, "y", "x", "z"), vs)], term
-    return mk(f"strings[deep={int(deep)},c<={cmax}]", setup, strict=False)
+    return mk(f"strings[deep={int(deep)},pat_int={int(pat_int)},c<={cmax}]", setup, strict=STRICT_SUBST)
 
 
 def ob_edge(cmax):
@@ -465,45 +502,65 @@ def ob_edge(cmax):
     return mk(f"edge[c<={cmax}]", setup)
 
 
-def ob_bottom_up(cmax, t_extra):
-    s_opts = [INT, S("x"), L((g, "x")), L((g, INT))]
+def k3(*a):
+    return ("k",) + a
 
+
+NAMES[k3] = "k"
+K3_RULE1 = [None, (k3, "x", (g, "y"), "x"), (k3, (g, "x"), "y", INT)]
+
+
+def ob_arity3(pc, tc):
+    """a ternary symbol: the traversal stack holds two pending siblings (their order matters only from arity 3 on)"""
+    def setup(e):
+        lhs = (k3,) + tuple(gen(e, f"p0_{i}", 0, [INT] + XY, [], pc) for i in range(3))
+        e.assume(x_first(lhs))
+        specs = [Spec(lhs, RHS, ("x", "y"))]
+        r1 = K3_RULE1[e.choice("rule1", len(K3_RULE1))]
+        if r1 is not None:
+            specs.append(Spec(build(e, "p1", r1, pc), called, ("x", "y")))
+        term = (k3,) + tuple(gen(e, f"t_{i}", 0, [INT, L((g, INT))], [], tc) for i in range(3))
+        return specs, term
+    return mk(f"arity3[pc<={pc},tc<={tc}]", setup)
+
+
+# complete rules for the bottom-up family: rewriting the arguments creates / destroys matches at the top
+BU_RULES = [
+    ((g, "x"), "x"),
+    ((f, "x", "x"), (g, "x")),
+    ((g, INT), 1),
+    ((f, (g, "x"), "y"), (f, "x", "y")),
+    (INT, (g, 0)),
+]
+
+
+def ob_bottom_up(pc, tc, t_opts):
     def setup(e):
         specs = []
         n = 1 + e.choice("nrules", 2)
         for r in range(n):
-            kind = e.choice(f"p{r}_kind", 3)
-            if kind == 0:
-                lhs = (f,) + tuple(gen(e, f"p{r}_{i}", 0, s_opts, [], cmax) for i in range(2))
-            elif kind == 1:
-                lhs = (g, gen(e, f"p{r}_0", 0, [INT, S("x")], [], cmax))
-            else:
-                lhs = e.int(f"p{r}_c", 0, cmax)
-            rhs = [(g, "x"), (f, "x", "x")][r] if kind != 2 else (g, 1)
-            specs.append(Spec(lhs, rhs, ("x",)))
-        t_opts = [L((f, INT, INT)), L((f, (g, INT), INT)), L((f, (g, INT), (g, INT))), L((g, (g, INT))), L((g, (f, INT, INT)))] + t_extra
-        term = gen(e, "t", 0, t_opts, [], cmax)
+            lhs, rhs = BU_RULES[e.choice(f"rule{r}", len(BU_RULES))]
+            specs.append(Spec(build(e, f"p{r}", lhs, pc), rhs, ("x", "y")))
+        term = gen(e, "t", 0, t_opts, [], tc)
         return specs, term
-    return mk(f"bottom_up[c<={cmax}]", setup, bottom_up=True)
+    return mk(f"bottom_up[pc<={pc},tc<={tc}]", setup, bottom_up=True)
+
+
+BU_TERMS = [L((f, INT, INT)), L((f, (g, INT), INT)), L((f, (g, INT), (g, INT))), L((g, (g, INT))), L((g, (f, INT, INT)))]
 
 
 def ob_variadic(cmax):
     """function symbols used with arity 1 AND 2: outside the ranked-alphabet assumption (enabled with VERIF_C51_VARIADIC=1).
     mixed_arity is a derived model variable so that a known-finding predicate can name the region."""
-    heads = [(f, 1), (f, 2), (g, 1), (g, 2)]
+    pl = [INT, S("x")]
+    p_sub = (1, pl, [(g, 1), (g, 2)])
+    t_sub = (1, [INT], [(g, 1), (g, 2)])
 
     def setup(e):
-        n = 1 + e.choice("nrules", 2)
-        specs = []
-        for r in range(n):
-            lhs = gen(e, f"p{r}", 2, [INT, S("x"), S("y")], heads[:2], cmax, sub=(1, [INT, S("x"), S("y")], heads[2:]))
-            specs.append(Spec(lhs, RHS if r == 0 else called, ("x", "y")))
-        term = gen(e, "t", 2, [INT], heads[:2], cmax, sub=(1, [INT], heads[2:]))
-        e.assume(is_app(term) and all(is_app(sp.lhs) for sp in specs))
-        ar = {}
-        for sp in specs:
-            arities(sp.lhs, ar)
-        arities(term, ar)
+        lhs = gen(e, "p", 2, [], [(f, 1), (f, 2)], cmax, sub=p_sub)
+        specs = [Spec(lhs, RHS, ("x", "y"))]
+        term = gen(e, "t", 2, [], [(f, 1), (f, 2)], cmax, sub=t_sub)
+        ar = arities(term, arities(lhs, {}))
         mixed = int(any(len(v) > 1 for v in ar.values()))
         mx = e.int("mixed_arity", 0, 1)
         e.assume(lambda: mx == mixed)
@@ -514,22 +571,22 @@ def ob_variadic(cmax):
 def obligations(tier):
     obs = []
     if tier == "quick":
-        c = 2
-        obs.append(ob_one_rule(c, [INT], "int-terms"))
-        obs.append(ob_two_rules(c, [INT, S("x"), S("y"), L((g, INT)), L((g, "x"))],
-                                [INT, L((g, INT)), L((g, (g, INT))), L((f, INT, INT))], "f-rooted"))
-        obs.append(ob_strings(c, False))
-        obs.append(ob_edge(c))
-        obs.append(ob_bottom_up(c, []))
+        obs.append(ob_one_rule(1, 2, [INT], "int-terms", light=True))
+        obs.append(ob_two_rules(1, 2, [INT, S("x"), S("y"), L((g, "x"))],
+                                [INT, L((g, INT)), L((f, INT, INT))], "f-rooted"))
+        obs.append(ob_strings(2, False, False))
+        obs.append(ob_edge(2))
+        obs.append(ob_arity3(1, 1))
+        obs.append(ob_bottom_up(1, 2, BU_TERMS))
     else:
-        c = 3
-        obs.append(ob_one_rule(c, [INT, S("x")], "int+str-terms"))
-        obs.append(ob_two_rules(c, [INT, S("x"), S("y"), L((g, INT)), L((g, "x")), L((g, "y"))],
-                                [INT, L((g, INT)), L((g, (g, INT))), L((f, INT, INT)), L((g, (f, INT, INT)))], "f-rooted"))
-        obs.append(ob_strings(c, False))
-        obs.append(ob_strings(2, True))
-        obs.append(ob_edge(c))
-        obs.append(ob_bottom_up(c, [L((f, (f, INT, INT), (g, INT))), L((f, (f, INT, INT), (f, INT, INT))), L((f, INT, (g, INT)))]))
+        obs.append(ob_one_rule(2, 2, [INT], "int-terms"))
+        obs.append(ob_two_rules(2, 2, [INT, S("x"), S("y"), L((g, INT)), L((g, "x"))],
+                                [INT, L((g, INT)), L((g, (g, INT))), L((f, INT, INT))], "f-rooted"))
+        obs.append(ob_strings(2, False, True))
+        obs.append(ob_strings(1, True, False))
+        obs.append(ob_edge(3))
+        obs.append(ob_arity3(2, 2))
+        obs.append(ob_bottom_up(2, 3, BU_TERMS + [L((f, (f, INT, INT), (g, INT))), L((f, INT, (g, INT)))]))
     if VARIADIC:
         obs.append(ob_variadic(1 if tier == "quick" else 2))
     return obs
